@@ -1,12 +1,12 @@
 SPECIFICATION Spec
 CONSTANTS
  Readers = {"r1","r2"}
- Keys = {"k1"}
+ Keys = {"k1","k2"}
  MaxVer = 2
  MaxObj = 3
  Defect_SharedBucketHandle = FALSE
  Defect_NoVersionCheck = FALSE
  AllowEvict = TRUE
- Defect_ReaderUnlocked = FALSE
+ Defect_ReaderUnlocked = TRUE
 INVARIANTS NoClosedBucketRead ReaderSnapshotConsistent CoherentWithOwnVersion
 CHECK_DEADLOCK FALSE
